@@ -10,7 +10,15 @@ using namespace gv;
 // ---- isolated execution (fork): a sanitizer abort inside the child becomes a #BAD line of the parent, which goes on ----
 // wall-clock limit imposed on the op by an isolating parent (0 = none)
 inline int& alarm_cap() { static int c = 0; return c; }
-inline void arm(int s) { alarm(unsigned(alarm_cap() > 0 && alarm_cap() < s ? alarm_cap() : s)); }
+// limit on an op: `s` seconds of *CPU* time of this process (ITIMER_PROF -> SIGPROF; a loaded machine cannot trip it), with a
+// generous wall-clock backstop for calls blocked outside the CPU
+inline void arm(int s) {
+  int lim = alarm_cap() > 0 && alarm_cap() < s ? alarm_cap() : s;
+  struct itimerval t; t.it_interval.tv_sec = 0; t.it_interval.tv_usec = 0; t.it_value.tv_sec = lim; t.it_value.tv_usec = 0;
+  setitimer(ITIMER_PROF, &t, nullptr);
+  alarm(unsigned(20 * lim));
+}
+inline void disarm() { struct itimerval t; std::memset(&t, 0, sizeof t); setitimer(ITIMER_PROF, &t, nullptr); alarm(0); }
 inline bool& in_child() { static bool b = false; return b; }
 // returns the wait status; the child's stderr (sanitizer report) in `err`
 inline int run_child(const std::string& op, const Args& a, int timeout_s, std::string& err) {
@@ -26,7 +34,7 @@ inline int run_child(const std::string& op, const Args& a, int timeout_s, std::s
     std::signal(SIGABRT, SIG_DFL);
     in_child() = true;            // the alarm handler then exits with status 77 instead of printing
     alarm_cap() = timeout_s;
-    alarm(unsigned(timeout_s));
+    arm(timeout_s);
     run(op, a);
     std::fflush(stdout);
     _exit(0);
